@@ -2,6 +2,7 @@
   C11 — The result is a deterministic function of document and options.
 -/
 import Distill.Gen.Inventory
+import Distill.Gen.Funcs
 namespace Distill.C11
 open Distill
 
@@ -67,5 +68,14 @@ theorem candidates_not_ranged :
 
 /-- no state survives a call: nothing writes to a package-level variable -/
 theorem no_package_writes : Gen.packageWrites = [] := by rfl
+
+/-- the reader and file entry points only parse / open and delegate to `Apply`, so their result is
+`Apply`'s on the tree parsed from the same bytes (regenerated statement lists) -/
+theorem entry_points_delegate :
+    Gen.entryPointBodies = Gen.entryPointBodiesExpected ∧
+    Gen.entryPointBodiesExpected.lookup "..ApplyForReader" =
+      some ["doc, err := dom.Parse(r)", "if err != nil { return nil, err }", "return Apply(doc, opts)"] ∧
+    (Gen.entryPointBodiesExpected.lookup "..ApplyForFile").map (fun l => l.drop 3) = some ["return ApplyForReader(f, opts)"] := by
+  refine ⟨rfl, ?_, ?_⟩ <;> decide +kernel
 
 end Distill.C11
